@@ -9,6 +9,10 @@ def _untracked():
     r = subprocess.run(['git', '-C', repo, 'ls-files', '--others', '--exclude-standard'], capture_output=True, text=True)
     return set(r.stdout.split('\n')) - {''}
 before = _untracked()
+def _modified():
+    r = subprocess.run(['git', '-C', repo, 'diff', '--name-only'], capture_output=True, text=True)
+    return set(r.stdout.split('\n')) - {''}
+mod_before = _modified()
 fd, out = tempfile.mkstemp(suffix='.junit.xml'); os.close(fd)
 env = dict(os.environ); env.pop('HOLPY_VERIF', None)
 subprocess.run(['/venv/bin/python', '-m', 'pytest', '-q', '-p', 'no:cacheprovider', '--timeout=900',
@@ -22,6 +26,9 @@ for f in _untracked() - before:
         os.remove(os.path.join(repo, f))
     except OSError:
         pass
+# ... and rewrites tracked result files (library/hoare_test_output.json): restore those it touched
+for f in _modified() - mod_before:
+    subprocess.run(['git', '-C', repo, 'checkout', '--', f])
 passed = set()
 for tc in ET.parse(out).getroot().iter('testcase'):
     if not any(ch.tag in ('failure', 'error', 'skipped') for ch in tc):
